@@ -578,9 +578,14 @@ func (b *builder) buildC06() {
 	var plans []connPlan
 	for i := 0; i < nc; i++ {
 		c := Conn{Cfg: b.msgCfg(), Obj: i, Compact: b.r.Chance(1, 2), ResetBy: b.r.Intn(2)}
-		o := gen.MsgOpts{Request: -1, CL: gen.CLAny, BodyMax: 300, MaxHdrs: b.r.PickInt(0, 0, 4, 12)}
+		// C06 quantifies over well-formed header blocks: first lines are canonical (the first line's
+		// own grammar is C08's business, not the framing model's)
+		o := gen.MsgOpts{Request: -1, CL: gen.CLAny, BodyMax: 300, MaxHdrs: b.r.PickInt(0, 0, 4, 12), Canonical: true}
 		if b.r.Chance(1, 3) {
 			o.CL = gen.CLExact
+		}
+		if b.r.Chance(1, 2) {
+			o.ForceMethod = gen.Methods[b.r.Intn(len(gen.Methods))]
 		}
 		if b.r.Chance(1, 80) {
 			o.BodyMax = 50000
